@@ -21,30 +21,6 @@ Open Scope Z_scope.
 
 (* ---------------------------------------------------------------- 1. the order on sources *)
 
-Lemma str_ltb_irrefl a : str_ltb a a = false.
-Proof. unfold str_ltb. rewrite str_cmp_refl. reflexivity. Qed.
-
-Lemma str_ltb_trans a b c : str_ltb a b = true -> str_ltb b c = true -> str_ltb a c = true.
-Proof.
-  unfold str_ltb. intros H1 H2.
-  destruct (str_cmp a b) eqn:E1; try discriminate. destruct (str_cmp b c) eqn:E2; try discriminate.
-  rewrite (str_cmp_lt_trans _ _ _ E1 E2). reflexivity.
-Qed.
-
-Lemma str_ltb_total a b : str_ltb a b = false -> str_ltb b a = false -> a = b.
-Proof.
-  unfold str_ltb. intros H1 H2. rewrite (str_cmp_antisym a b) in H2.
-  destruct (str_cmp a b) eqn:E; cbn in *; try discriminate.
-  apply str_cmp_eq. exact E.
-Qed.
-
-Lemma str_eqb_false a b : str_eqb a b = false <-> a <> b.
-Proof.
-  split.
-  - intros H E. apply str_eqb_eq in E. congruence.
-  - intros H. destruct (str_eqb a b) eqn:E; [|reflexivity]. apply str_eqb_eq in E. contradiction.
-Qed.
-
 Lemma src_ltb_irrefl a : src_ltb a a = false.
 Proof. unfold src_ltb. rewrite str_eqb_refl. apply Z.ltb_irrefl. Qed.
 
